@@ -540,7 +540,10 @@ func (g *gen) intExpr(sc *scope, t *Type, d int) (string, bool) {
 			case 1:
 				if vs := g.varsOfKind(sc, KSlice); len(vs) > 0 {
 					g.feat("len-slice")
-					return conv(pick(r, []string{"len", "cap"}) + "(" + pick(r, vs).name + ")"), false
+					// cap is not observed here: the capacity after an append that
+					// reallocates is implementation-defined (orderStmt observes the
+					// capacities the specification defines)
+					return conv("len(" + pick(r, vs).name + ")"), false
 				}
 			case 2:
 				if vs := g.varsOfKind(sc, KMap); len(vs) > 0 {
